@@ -35,6 +35,10 @@ CHECKS = {
   text="Bounded symbolic model checking of the real rule evaluator (DetectionRule.detect and every Conditions subclass) on condition trees parsed from text by the real Parser: for each enumerated tree (22 quick / ~150 thorough; not/and/or/groups/cds/minimum/minscore over 2 profiles) the evaluation at a gene with 2 neighbours is executed on symbolic gene coordinates, cutoff, record length, hit presence (booleans) and bitscores (reals), and z3 must answer unsat for path /\\ not(documented formula) for met, the reason profiles and the anchoring decision; distance-at-cutoff and across-origin cases are solver-chosen.",
   note="Trees are enumerated (the programs axis is sampled, inputs are symbolic). Details.in_range is explored as a function summary (same code). 3 genes, 2 profiles; minscore inside cds() is outside the documented grammar and not claimed.",
   ref="3/C01"),
+ "C02": dict(
+  text="Bounded symbolic model checking of the real Parser on the CONDITIONS section given as a stream of tokens whose KINDS are symbolic over the 13 condition token types (identifiers symbolic over {a,b,c,unknown}, integers over {0,1,2,3,150}): streams of <= 5 (quick) / 6 (thorough) fully symbolic tokens plus streams with a concrete opening (cds(, minscore(, minimum(2,, a and cds(, (a or, not (, not cds() and 4/5 symbolic tokens. An independent transcription of the documented grammar (not > and > or, groups, cds, minimum, minscore, rejection of unknown profiles, repeated operands, unbalanced groups, only-negative conditions, minimum count < 1) runs on the same symbolic stream in the same path; on every path: same accept/reject, the parsed tree has the same truth table as the reference tree, and the text regenerated from an accepted rule parses back (real tokeniser) to the same name, distances and meaning. Plus enumerated rule files for SUPERIORS closure, kilobase scaling with multipliers over several files, aliases as textual substitution and whitespace/comments.",
+  note="The Tokeniser is bypassed only in the stream harness (a stand-in returns the real header tokens plus the symbolic stream). The rule-files harness enumerates concrete programs (166 texts) - exhaustive inside its list, no symbolic content. Streams longer than the bound, DESCRIPTION/EXAMPLE text and the intended meaning of the shipped rule files are outside the claim.",
+  ref="3/C02"),
  "C03": dict(
   text="Bounded symbolic model checking of find_protoclusters and its helpers (_extend_area_location, apply_extenders, remove_redundant_protoclusters, merge_over_origin) on <= 3 (quick) / 4 (thorough) anchoring genes with symbolic coordinates, cutoff, neighbourhood and record length, linear and circular, incl. an origin-spanning gene; spec: same protocluster iff chained by ring distance < cutoff (unrolled closure), every anchor in exactly one core, core = connect-hull, extent = core +- neighbourhood clipped/wrapped; plus a two-rule harness for SUPERIORS with EXTENDERS.",
   note="On a ring the grouping clauses are claimed while every chain group fits in an arc shorter than half the record (C04/C07 wording); cutoff and neighbourhood <= 3x record length (linearised modulus); HMMER hit generation and apply_cluster_rules are covered by C01/C07, not here.",
